@@ -37,14 +37,14 @@ contract("monkeytype.typing:shrink_typed_dict_types", props=["C04", "C05", "C06"
          params={"typed_dicts": "Seq[Ty]", "max_typed_dict_size": "Opt[int]"}, result="Ty", scc="shrink", decreases=["mdepth(typed_dicts)", "0"],
          requires={"all-td": "forall(typed_dicts, lambda t: kind(t) is K_TD and wf_rw(t))", "nonempty": "len(typed_dicts) >= 1"},
          ensures={"post:super": "forall(typed_dicts, lambda t: forall_val(lambda v: implies(mem(v, t), mem(v, result))))",
-                  "post:wf": "wf_rw(result) and result is not ELLIPSIS_"},
+                  "post:wf": "wf_rw(result) and result is not ELLIPSIS_ and result is not None"},
          note="bounded in this round (runtime/props/c04.py); invariant sketch in DESIGN Appendix A")
 
 contract("monkeytype.typing:shrink_types", props=["C04", "C05", "C06", "C01"], theories=TH,
          params={"types": "Seq[Ty]", "max_typed_dict_size": "Opt[int]"}, result="Ty", scc="shrink", decreases=["mdepth(types)", "1"],
-         requires={"wf": "forall(types, lambda t: wf_rw(t) and t is not ELLIPSIS_)"},
+         requires={"wf": "forall(types, lambda t: wf_rw(t) and t is not ELLIPSIS_ and t is not None)"},
          hints={"rewritten-wf": "forall(L_all_dict_types, lambda t: wf_rw(t) and t is not ELLIPSIS_)"},
-         ensures={"post:super": _SUP, "post:wf": "wf_rw(result) and result is not ELLIPSIS_",
+         ensures={"post:super": _SUP, "post:wf": "wf_rw(result) and result is not ELLIPSIS_", "post:not-none": "result is not None",
                   "post:empty": "implies(len(types) == 0, result is ANY)"},
          # C05: the literal Any is produced only for the empty input
          any_only_if="len(types) == 0")
